@@ -55,7 +55,8 @@ def run(ctx):
         arrs = rnd.sample(arrs, 120)
     docs = []
     for a in arrs:
-        for b in (None, {"c": 1}, {"c": 2, "d/e": 1}, {"k~": [1, 2], "x|y": {"s*": True}}):
+        # scalars that Python's == cannot tell apart but JSON can (1 / true / 1.0, 0 / false) sit at the same place in different documents
+        for b in (None, {"c": 1}, {"c": 2, "d/e": 1}, {"k~": [1, 2], "x|y": {"s*": True}}, {"c": True}, {"c": 1.0, "z": 0}, {"c": 1, "z": False}):
             d = {"a": a}
             if b is not None:
                 d["b"] = b
@@ -64,7 +65,9 @@ def run(ctx):
     cap = 5000 if quick else 120000
     if len(pairs) > cap:
         pairs = rnd.sample(pairs, cap)
-    extra = [({"a": [1, 2, 3, 4, 5]}, {"a": [5, 1, 2]}), ({"a": [1, 3, 4], "b": {"c": 1}}, {"a": [4, 3], "b": {"c": 2, "d/e": 1}})]
+    extra = [({"a": [1, 2, 3, 4, 5]}, {"a": [5, 1, 2]}), ({"a": [1, 3, 4], "b": {"c": 1}}, {"a": [4, 3], "b": {"c": 2, "d/e": 1}}),
+             ({"b": {"c": 1}}, {"b": {"c": True}}), ({"b": {"c": 0, "z": 1}}, {"b": {"c": False, "z": 1.0}}), ({"a": [1, 2]}, {"a": [True, 2]}),
+             ({"a": [0, 2], "b": {"c": 1}}, {"a": [False, 2], "b": {"c": 1}})]
     for (o, n) in extra + pairs:
         rec = {"id": "patch-%d" % len(recs), "kind": "patch", "old": enc(o), "new": enc(n), "src": [o, n]}
         try:
@@ -149,7 +152,20 @@ def run(ctx):
             ctx.drift(1, rec["src"])
 
 
+def typed_only_in_arrays(a, b, inarr=False):
+    """a and b are ==-equal for Python; True iff every place where their JSON types differ lies inside an array"""
+    if isinstance(a, dict) and isinstance(b, dict):
+        return all(typed_only_in_arrays(a[k], b[k], inarr) for k in a)
+    if isinstance(a, list) and isinstance(b, list):
+        return all(typed_only_in_arrays(x, y, True) for x, y in zip(a, b))
+    return json.dumps(a) == json.dumps(b) or inarr
+
+
 def signature_of(rec, v):
+    if rec["kind"] == "patch" and v[0] == "patch-does-not-reproduce-the-target" and v[1] == "library":
+        o, n = rec["src"]
+        if o == n and json.dumps(o, sort_keys=True) != json.dumps(n, sort_keys=True) and typed_only_in_arrays(o, n):
+            return "jsonpatch library: array elements that differ only in JSON type (1 / true) are taken for equal"
     if rec["kind"] == "patch" and v[0] == "patch-does-not-reproduce-the-target" and v[1] == "library":
         return "jsonpatch library: its own (unsorted) op list does not reproduce the target (cross-container move, hash-seed dependent)"
     return None
